@@ -40,6 +40,9 @@ PKGS = {
     "maven": ("util/maven", "maven"),
 }
 
+# packages whose verif-tagged hook files must be compiled in (MANIFEST.hooks)
+PKG_TAGS = {"rnpm": "verif"}
+
 _tmpdirs = []
 
 
@@ -85,7 +88,7 @@ def make_engine_overlay(pkgkey):
     return d
 
 
-def run_engine(pkgkey, jobs, workers=None, qtimeout_ms=20000, wall_timeout_s=3600, tests=False):
+def run_engine(pkgkey, jobs, workers=None, qtimeout_ms=20000, wall_timeout_s=3600, tests=False, tags=None):
     """Runs all jobs for one package; returns the list of JobResult dicts."""
     ensure_engine()
     workers = workers or WORKERS
@@ -99,6 +102,9 @@ def run_engine(pkgkey, jobs, workers=None, qtimeout_ms=20000, wall_timeout_s=360
            "-j", str(workers), "-solver", SOLVER, "-qtimeout", str(qtimeout_ms)]
     if tests:
         cmd.append("-tests")
+    tags = tags or PKG_TAGS.get(pkgkey)
+    if tags:
+        cmd += ["-tags", tags]
     t0 = time.time()
     try:
         r = subprocess.run(cmd, env=GOENV, capture_output=True, text=True, timeout=wall_timeout_s)
@@ -156,7 +162,8 @@ def native_replay(pkgkey, cases, case_timeout_ms=10000):
         json.dump([cases[i] for i in todo], open(cf, "w"))
         env = dict(GOENV, VERIF_REPLAY=cf, VERIF_REPLAY_OUT=of, VERIF_REPLAY_CASE_TIMEOUT_MS=str(case_timeout_ms))
         try:
-            r = subprocess.run(["go", "test", "-vet=off", "-count=1", "-run", "^TestVerifReplay$", "-overlay", ovp, "."],
+            tagargs = ["-tags", PKG_TAGS[pkgkey]] if pkgkey in PKG_TAGS else []
+            r = subprocess.run(["go", "test"] + tagargs + ["-vet=off", "-count=1", "-run", "^TestVerifReplay$", "-overlay", ovp, "."],
                                cwd=os.path.join(REPO, pkgdir), env=env, capture_output=True, text=True,
                                timeout=300 + len(todo) * case_timeout_ms / 1000.0)
         except subprocess.TimeoutExpired:
